@@ -1,7 +1,7 @@
 SPECIFICATION Spec
 CONSTANTS
   SMax = 2
-  Schemas = {-1, 0, 1, 2}
+  Schemas <- S_Schemas
   IdxLo <- S_Lo
   IdxHi = 10
   PIdx <- S_PIdx
@@ -11,10 +11,11 @@ CONSTANTS
   Counts = {1, 2, 5}
   Thresholds <- S_Thr
   ZeroCounts = {0, 1, 3}
+  BZeroCounts = {0, 1, 3}
   Bounds = {1, 2, 3, 4}
   Kinds = {"exp", "cb"}
   Types = {"float", "int"}
-  BTypes = {"float", "int"}
+  BTypes = {"float"}
   MaxP = 0
   MaxN = 0
   BMaxP = 0
